@@ -472,8 +472,10 @@ fn tamper_cases(rng: &mut Rng, base: &Path, thorough: bool, sum: &mut Summary) -
             pick.push(*rng.pick(idxs));
             pick.sort(); pick.dedup();
             for i in pick {
-                ts.push((Tamper::Set(i, orig[i] ^ (1 << rng.below(8))), c.to_string()));
-                if matches!(*c, "version" | "argon2_config" | "created_at" | "encrypted_size" | "data_len") { ts.push((Tamper::Set(i, orig[i] ^ 0x80), c.to_string())); }
+                // one change that keeps the varint framing (low seven bits), one that breaks it (bit 7)
+                ts.push((Tamper::Set(i, orig[i] ^ (1 << rng.below(7))), c.to_string()));
+                if matches!(*c, "version" | "argon2_config" | "created_at" | "updated_at" | "encrypted_size" | "data_len") { ts.push((Tamper::Set(i, orig[i] ^ 0x80), c.to_string())); }
+                if *c == "version" { for v in [0u8, 2, 0x7f] { ts.push((Tamper::Set(i, v), c.to_string())); } }
             }
         }
         for n in [0usize, 1, 40, orig.len() - 17, orig.len() - 1] { ts.push((Tamper::Trunc(n), "truncate".into())); }
